@@ -71,3 +71,22 @@ CONFIG['C16'] = dict(unit='scopes',
     ],
     samples=[{'obligation': 'calculate_scopes postcondition', 'clause': 'tiles(r@, count): len == count, first.from == (0,1), last.to == (48,49), every from/to a valid position or the terminal, from <=lex to, scope[k+1].from == scope[k].to'}],
     search=[['scopes-search', '{seed}', '{n}']], search_n={'quick': 20000, 'thorough': 60000})
+
+RANGE_ALLOWED = [r'^external_body pub fn (into_iter|f32_eq)', r'^uninterp spec pub uninterp spec fn f32_eq_spec', r'axiom_pair_key_models']
+CONFIG['C12'] = dict(unit='range', allowed=RANGE_ALLOWED,
+    stubs=['RankPair::into_iter (contracts/rankpair_into_iter.vc: the 6/4/12 combos, proved on the real body in unit TOKEN)',
+           'RankRange::into_iter (contiguous run of ranks; proved for all ordered endpoint pairs by Kani harness c13_rank_range)'],
+    assumptions=[
+        DERIVE,
+        'key models: derived Hash/Eq of CardPair and RankPair agree (broadcast axiom), so vstd map semantics apply to the two HashMaps',
+        'derive(PartialOrd) on Card is the order of card codes (PartialOrdSpecImpl axiom; proved for the real derived impl by Kani harness c13_order_next_prev)',
+        'R16: `==` on f32 routed through f32_eq, an uninterpreted deterministic relation: "same weight" means IEEE-equal to the first combo\'s weight (NaN weights never form a rank pair); floats are not modelled',
+        'R7: HashMap<_, f32, FxBuildHasher> replaced by HashMap<_, f32>; R14: .into_iter().all(closure) as a short-circuit loop; R4: is_some_and as match; R17: by-value iteration of the rank-pair map as .iter()',
+        'combos_seq (the 6/4/12 listed combos) equals the first-principles suit enumeration in_rank_pair: lemma_combos_pocket/suited/ofsuit (proved, Verus)',
+    ],
+    samples=[
+        {'obligation': 'HandRange::rank_pairs postcondition', 'clause': 'is_rank_pairs_of(res@, self.0@): res contains rp <==> valid_rp(rp) && every combo of rp is present with a weight f32-equal to the first one; res[rp] is that weight'},
+        {'obligation': 'HandRange::orphan_card_pairs postcondition', 'clause': 'exists r. is_rank_pairs_of(r, m) && is_orphans_of(res@, r, m): res contains cp <==> m contains cp && no reported rank pair lists cp; weights unchanged'},
+        {'obligation': 'lemma_partition', 'clause': 'the two views cover every combo of the range exactly once'},
+    ],
+    search=[['c12-search', '{seed}', '{n}']], search_n={'quick': 300000, 'thorough': 3000000})
